@@ -26,6 +26,7 @@ class Node:
         self.cfi = True
         self.hidden = False     # STV_HIDDEN global (never exported; may be shadowed by a shared lib)
         self.tls_vis = None     # for kind 'tls': default | hidden | protected
+        self.lsda = None        # None, or 0/1: the function has an LSDA and uses personality pers_<n>
 
     @property
     def marker(self):
@@ -230,6 +231,17 @@ def generate(rng, size="small", force_tls=False, dummy_archives=False):
                 g.nodes.append(n)
                 by_obj[before].append(n.idx)
     g.params["dummy_archives"] = len(g.dummy_archives)
+    # Unwind information of the C++ kind: some functions get a personality routine and a language-
+    # specific data area. That gives two more CIE shapes ("zPLR", one per personality), a relocated
+    # pointer from the CIE to the personality function and one from the FDE to a `.gcc_except_table`
+    # section that is referenced from nowhere else.
+    p_lsda = rng.choice([0.0, 0.0, 0.15, 0.4])
+    nl = 0
+    for n in g.nodes:
+        if n.kind == "func" and not n.comdat and rng.random() < p_lsda:
+            n.lsda = rng.randrange(2)
+            nl += 1
+    g.params["lsda_funcs"] = nl
     return g
 
 
@@ -292,6 +304,10 @@ def expected_checksum(g):
     return total & 0xFFFFFFFFFFFFFFFF
 
 
+def lsda_marker(n):
+    return 0x15DA000000000000 + n.idx
+
+
 def _emit_func(g, n, out, as_comdat_copy=False):
     name = n.name
     if n.comdat:
@@ -310,6 +326,9 @@ def _emit_func(g, n, out, as_comdat_copy=False):
     out.append(f"\t.type {name},@function")
     out.append(f"{name}:")
     out.append("\t.cfi_startproc")
+    if getattr(n, "lsda", None) is not None and not as_comdat_copy:
+        out.append(f"\t.cfi_personality 0x1b, pers_{n.lsda}")
+        out.append(f"\t.cfi_lsda 0x1b, .Llsda_{n.idx}")
     out.append(f"\tcmpb $0, visited+{n.idx}(%rip)")
     out.append("\tjne 99f")
     out.append(f"\tmovb $1, visited+{n.idx}(%rip)")
@@ -361,6 +380,11 @@ def _emit_func(g, n, out, as_comdat_copy=False):
     out.append("\tret")
     out.append("\t.cfi_endproc")
     out.append(f"\t.size {name}, .-{name}")
+    if getattr(n, "lsda", None) is not None and not as_comdat_copy:
+        out.append(f'\t.section .gcc_except_table.{name},"a",@progbits')
+        out.append("\t.p2align 2")
+        out.append(f".Llsda_{n.idx}:")
+        out.append(f"\t.quad 0x{lsda_marker(n):x}")
     if not as_comdat_copy and not n.comdat:
         lbl2 = 0
         for (k, t) in n.edges:
@@ -501,6 +525,18 @@ def emit(g, workdir):
     out.append("\tsyscall")
     out.append("\t.cfi_endproc")
     out.append("\t.size _start, .-_start")
+    if any(getattr(n, "lsda", None) is not None for n in g.nodes):
+        for k in range(2):
+            out.append(f'\t.section .text.pers_{k},"ax",@progbits')
+            out.append(f"\t.globl pers_{k}")
+            out.append(f"\t.hidden pers_{k}")
+            out.append(f"\t.type pers_{k},@function")
+            out.append(f"pers_{k}:")
+            out.append("\t.cfi_startproc")
+            out.append(f"\tmovl ${k + 1}, %eax")
+            out.append("\tret")
+            out.append("\t.cfi_endproc")
+            out.append(f"\t.size pers_{k}, .-pers_{k}")
     if getattr(g, "tls", None):
         out.append('\t.section .text.__tls_get_addr,"ax",@progbits')
         out.append("\t.globl __tls_get_addr")
